@@ -268,6 +268,10 @@ class ServerConn:
         st = self.st
         if st.peer_closed:
             return
+        if st.segments:
+            # a byte stream is FIFO: bytes written now cannot overtake earlier bytes that are still on their way
+            st.segments.append(bytes(data))
+            return
         st.outq += data
         self.net._flush(st)
 
